@@ -5,6 +5,7 @@ import (
 	"fmt"
 	"os"
 	"os/exec"
+	"runtime/debug"
 	"sort"
 	"strconv"
 	"strings"
@@ -26,6 +27,8 @@ type template struct {
 	thor    []int
 	nolimit bool // run at the root context (needed when the program itself uses runtime.callcontext)
 	group   string
+	// answer: every (template, N) is a small program that must answer at once (a TIMEOUT is class HANG)
+	answer bool
 }
 
 func rep(s string, n int) string { return strings.Repeat(s, n) }
@@ -45,7 +48,7 @@ func num(i int) string  { return strconv.Itoa(i) }
 func encI(n int) string { return "i" + strconv.Itoa(n) }
 
 var (
-	nestQ   = []int{100, 20000}
+	nestQ   = []int{100} // deep nesting is the business of the deep-* family
 	nestT   = []int{100, 1000, 10000, 100000, 1000000}
 	countQ  = []int{200, 255, 256, 300}
 	countT  = []int{200, 254, 255, 256, 257, 300, 1000, 65535, 65536, 70000}
@@ -56,9 +59,9 @@ var (
 	hugeQ   = []int{1000, 1 << 31, 1 << 40}
 	hugeT   = []int{1000, 1000000, 1 << 31, 1 << 40, 1 << 62}
 	single  = []int{1}
-	jumpQ   = []int{1000, 10000, 16500, 33000}
+	jumpQ   = []int{1000, 16500} // the exact thresholds are compared with the model in the limits phase
 	jumpT   = []int{1000, 10000, 16000, 16380, 16390, 16500, 20000, 32760, 32770, 33000, 40000, 70000, 140000}
-	constQ  = []int{1000, 70000}
+	constQ  = []int{1000}
 	constT  = []int{1000, 65000, 65530, 65534, 65535, 65536, 65537, 65540, 70000, 140000}
 	lengthQ = []int{1000, 100000}
 	lengthT = []int{1000, 100000, 1000000, 10000000}
@@ -75,12 +78,18 @@ func templates() []template {
 	add("nest", "nest-functions", nestQ, nestT, func(n int) string { return rep("local function f() ", n) + rep(" end", n) + " return 1" }, func(n int) string { return "i1" })
 	add("nest", "nest-funcexp", nestQ, nestT, func(n int) string { return "return " + rep("function() return ", n) + "1" + rep(" end", n) }, nil)
 	add("nest", "nest-do", nestQ, nestT, func(n int) string { return rep("do ", n) + rep("end ", n) + "return 1" }, func(n int) string { return "i1" })
-	add("nest", "nest-if", nestQ, nestT, func(n int) string { return "local x = true " + rep("if x then ", n) + "x = 5 " + rep("end ", n) + "return x" }, func(n int) string { return "i5" })
+	add("nest", "nest-if", nestQ, nestT, func(n int) string {
+		return "local x = true " + rep("if x then ", n) + "x = 5 " + rep("end ", n) + "return x"
+	}, func(n int) string { return "i5" })
 	add("nest", "nest-while", nestQ, nestT, func(n int) string { return "local x " + rep("while x do ", n) + rep("end ", n) + "return 1" }, func(n int) string { return "i1" })
-	add("nest", "nest-for", nestQ, nestT, func(n int) string { return "local c = 0 " + rep("for i = 1, 1 do ", n) + "c = c + 1 " + rep("end ", n) + "return c" }, func(n int) string { return "i1" })
+	add("nest", "nest-for", nestQ, nestT, func(n int) string {
+		return "local c = 0 " + rep("for i = 1, 1 do ", n) + "c = c + 1 " + rep("end ", n) + "return c"
+	}, func(n int) string { return "i1" })
 	add("nest", "nest-repeat", nestQ, nestT, func(n int) string { return rep("repeat ", n) + rep("until true ", n) + "return 1" }, func(n int) string { return "i1" })
 	add("nest", "nest-index", nestQ, nestT, func(n int) string { return "local t = {} t[1] = 1 return t" + rep("[t", n) + "[1]" + rep("]", n) }, func(n int) string { return "i1" })
-	add("nest", "nest-call-args", nestQ, nestT, func(n int) string { return "local function f(x) return x end return " + rep("f(", n) + "1" + rep(")", n) }, func(n int) string { return "i1" })
+	add("nest", "nest-call-args", nestQ, nestT, func(n int) string {
+		return "local function f(x) return x end return " + rep("f(", n) + "1" + rep(")", n)
+	}, func(n int) string { return "i1" })
 	add("nest", "chain-unm", nestQ, nestT, func(n int) string { return "return " + rep("- ", n) + "1" }, func(n int) string { return encI(1 - 2*(n%2)) })
 	add("nest", "chain-not", nestQ, nestT, func(n int) string { return "return " + rep("not ", n) + "1" }, func(n int) string {
 		if n%2 == 1 {
@@ -99,15 +108,72 @@ func templates() []template {
 	add("nest", "chain-lt", nestQ, nestT, func(n int) string { return "local ok = pcall(function() return 1" + rep("<2", n) + " end) return 1" }, func(n int) string { return "i1" })
 	add("nest", "chain-field", nestQ, nestT, func(n int) string { return "local t = {} t.a = t t.v = 3 return t" + rep(".a", n) + ".v" }, func(n int) string { return "i3" })
 	add("nest", "chain-call", nestQ, nestT, func(n int) string { return "local function f() return f end return f" + rep("()", n) + " == f" }, func(n int) string { return "t" })
-	add("nest", "chain-method", nestQ, nestT, func(n int) string { return "local o = {} function o:m() return self end return o" + rep(":m()", n) + " == o" }, func(n int) string { return "t" })
+	add("nest", "chain-method", nestQ, nestT, func(n int) string {
+		return "local o = {} function o:m() return self end return o" + rep(":m()", n) + " == o"
+	}, func(n int) string { return "t" })
 	add("nest", "chain-strcall", nestQ, nestT, func(n int) string { return "local function f() return f end return f" + rep("''", n) + " == f" }, func(n int) string { return "t" })
-	add("nest", "chain-elseif", nestQ, nestT, func(n int) string { return "local x = false if x then return 0" + rep(" elseif x then return 0", n) + " else return 9 end" }, func(n int) string { return "i9" })
+	add("nest", "chain-elseif", nestQ, nestT, func(n int) string {
+		return "local x = false if x then return 0" + rep(" elseif x then return 0", n) + " else return 9 end"
+	}, func(n int) string { return "i9" })
 	add("nest", "chain-semicolons", nestQ, nestT, func(n int) string { return rep(";", n) + "return 1" }, func(n int) string { return "i1" })
-	add("nest", "chain-labels", nestQ, nestT, func(n int) string { return seq(n, func(i int) string { return "::l" + num(i) + "::" }, " ") + " return 1" }, func(n int) string { return "i1" })
+	add("nest", "chain-labels", nestQ, nestT, func(n int) string {
+		return seq(n, func(i int) string { return "::l" + num(i) + "::" }, " ") + " return 1"
+	}, func(n int) string { return "i1" })
 	add("nest", "chain-gotos", nestQ, nestT, func(n int) string {
 		return seq(n, func(i int) string { return "goto l" + num(i) + " ::l" + num(i) + "::" }, " ") + " return 1"
 	}, func(n int) string { return "i1" })
 	add("nest", "nest-longbracket-level", lengthQ, lengthT, func(n int) string { return "return #[" + rep("=", n) + "[ab]" + rep("=", n) + "]" }, func(n int) string { return "i2" })
+	// ---- every recursive production of the grammar, deep enough to exhaust the Go stack if the parser or
+	// the compiler recursed without a limit (the text is cheap: a fixed tree refuses it after 200 levels, and
+	// the iteratively parsed chains end as "function too large" / "expression too complex")
+	deepQ := []int{3000000}
+	deepT := []int{300, 100000, 3000000, 10000000}
+	chainQ := []int{150000}
+	chainT := []int{1000000, 4000000}
+	deep := func(name string, q, t []int, gen func(n int) string) { add("deep", name, q, t, gen, nil) }
+	for _, u := range [][2]string{{"unm", "- "}, {"not", "not "}, {"len", "#"}, {"bnot", "~"}, {"unm-nospace-parens", "-("}} {
+		u := u
+		closer := ""
+		if strings.HasSuffix(u[1], "(") {
+			closer = ")"
+		}
+		deep("deep-unary-"+u[0], deepQ, deepT, func(n int) string { return "return " + rep(u[1], n) + "a" + rep(closer, n) })
+	}
+	deep("deep-unary-mix", deepQ, deepT, func(n int) string { return "return " + rep("- not # ~ ", n/4) + "a" })
+	deep("deep-unary-under-binary", deepQ, deepT, func(n int) string { return "return a + " + rep("- ", n) + "a * 2" })
+	deep("deep-pow-right", deepQ, deepT, func(n int) string { return "return a" + rep("^a", n) })
+	deep("deep-pow-unary-right", deepQ, deepT, func(n int) string { return "return a" + rep("^-a", n) })
+	deep("deep-parens", deepQ, deepT, func(n int) string { return "return " + rep("(", n) + "a" + rep(")", n) })
+	deep("deep-parens-unclosed", deepQ, deepT, func(n int) string { return "return " + rep("(", n) })
+	deep("deep-tables", deepQ, deepT, func(n int) string { return "return " + rep("{", n) + rep("}", n) })
+	deep("deep-tables-keyed", deepQ, deepT, func(n int) string { return "return " + rep("{[", n) })
+	deep("deep-index-brackets", deepQ, deepT, func(n int) string { return "return a" + rep("[a", n) + rep("]", n) })
+	deep("deep-call-args", deepQ, deepT, func(n int) string { return "return " + rep("f(", n) + rep(")", n) })
+	deep("deep-call-table-args", deepQ, deepT, func(n int) string { return "return " + rep("f{", n) + rep("}", n) })
+	deep("deep-function-bodies", deepQ, deepT, func(n int) string { return "return " + rep("function() return ", n) + "1" + rep(" end", n) })
+	deep("deep-function-stats", deepQ, deepT, func(n int) string { return rep("function f() ", n) })
+	deep("deep-do", deepQ, deepT, func(n int) string { return rep("do ", n) })
+	deep("deep-if", deepQ, deepT, func(n int) string { return rep("if a then ", n) })
+	deep("deep-if-else", deepQ, deepT, func(n int) string { return rep("if a then else ", n) })
+	deep("deep-while", deepQ, deepT, func(n int) string { return rep("while a do ", n) })
+	deep("deep-for", deepQ, deepT, func(n int) string { return rep("for i=1,2 do ", n) })
+	deep("deep-for-in", deepQ, deepT, func(n int) string { return rep("for k in a do ", n) })
+	deep("deep-repeat", deepQ, deepT, func(n int) string { return rep("repeat ", n) })
+	deep("deep-repeat-until-exp", deepQ, deepT, func(n int) string { return "repeat until " + rep("(", n) })
+	deep("deep-local-function", deepQ, deepT, func(n int) string { return rep("local function f() ", n) })
+	deep("deep-method-args", deepQ, deepT, func(n int) string { return "return " + rep("a:m(", n) })
+	deep("deep-assign-index", deepQ, deepT, func(n int) string { return rep("a[", n) })
+	// iteratively parsed chains (left- or right-leaning trees built in a loop)
+	deep("deep-concat-right", chainQ, chainT, func(n int) string { return "return a" + rep("..a", n) })
+	deep("deep-and-or-ladder", chainQ, chainT, func(n int) string { return "return a" + rep(" and a or a", n/2) })
+	deep("deep-binary-mixed-precedence", chainQ, chainT, func(n int) string { return "return a" + rep("+a*a..a<a", n/4) })
+	deep("deep-field-chain", chainQ, chainT, func(n int) string { return "return a" + rep(".b", n) })
+	deep("deep-call-chain", chainQ, chainT, func(n int) string { return "return f" + rep("()", n) })
+	deep("deep-method-chain", chainQ, chainT, func(n int) string { return "return a" + rep(":m()", n) })
+	deep("deep-index-chain", chainQ, chainT, func(n int) string { return "return a" + rep("[1]", n) })
+	deep("deep-string-call-chain", chainQ, chainT, func(n int) string { return "return f" + rep("''", n) })
+	deep("deep-elseif-ladder", chainQ, chainT, func(n int) string { return "if a then" + rep(" elseif a then", n) + " end" })
+	deep("deep-statement-sequence-of-calls", chainQ, chainT, func(n int) string { return rep("f() ", n) })
 	// ---- counts: locals, upvalues, params, args, returns, list items -----------------
 	add("count", "locals-one-stat", countQ, countT, func(n int) string {
 		return "local " + seq(n, func(i int) string { return "a" + num(i) }, ",") + " = 1 return a1"
@@ -186,7 +252,7 @@ func templates() []template {
 	add("consts", "distinct-string-constants", constQ, constT, func(n int) string {
 		return "local x " + seq(n, func(i int) string { return "x = 's" + num(i) + "'" }, " ") + " return x"
 	}, func(n int) string { return "s" + hlib.Hex("s"+num(n)) })
-	add("consts", "distinct-float-constants", constQ, constT, func(n int) string {
+	add("consts", "distinct-float-constants", []int{1000, 70000}, constT, func(n int) string {
 		return "local x = 0 " + seq(n, func(i int) string { return "x = x + " + num(i) + ".5" }, " ") + " return x"
 	}, nil)
 	add("consts", "distinct-global-names", constQ, constT, func(n int) string {
@@ -224,7 +290,9 @@ func templates() []template {
 	add("length", "long-string-literal", lengthQ, lengthT, func(n int) string { return "return #'" + rep("s", n) + "'" }, func(n int) string { return encI(n) })
 	add("length", "long-longstring", lengthQ, lengthT, func(n int) string { return "return #[[" + rep("s\n", n) + "]]" }, func(n int) string { return encI(2 * n) })
 	add("length", "long-comment", lengthQ, lengthT, func(n int) string { return "--" + rep("c", n) + "\n--[[" + rep("c\n", n) + "]] return 1" }, func(n int) string { return "i1" })
-	add("length", "long-numeral", lengthQ, lengthT, func(n int) string { return "return 0 * 1" + rep("0", n) + ", 0x" + rep("f", n) + ", 0." + rep("0", n) + "1, 1e" + rep("9", 30) }, nil)
+	add("length", "long-numeral", lengthQ, lengthT, func(n int) string {
+		return "return 0 * 1" + rep("0", n) + ", 0x" + rep("f", n) + ", 0." + rep("0", n) + "1, 1e" + rep("9", 30)
+	}, nil)
 	add("length", "many-lines", lengthQ, lengthT, func(n int) string { return rep("\n", n) + "return 1 +" }, nil)
 	add("length", "long-escapes", lengthQ, lengthT, func(n int) string { return "return #\"" + rep("\\x41\\65\\u{41}\\z  \\n", n) + "\"" }, func(n int) string { return encI(4 * n) })
 	// ---- run time: recursion -------------------------------------------------------------
@@ -574,6 +642,50 @@ for _, lim in ipairs{{cpu = 1000}, {memory = 20000}} do
   r[#r + 1] = tostring(ctx2) r[#r + 1] = coroutine.status(co) r[#r + 1] = select("#", coroutine.resume(co))
 end
 return #r == 8`, "t")
+
+	// ---- metamethod graphs with cycles: for every event the handler is the object itself, closes a 2- or
+	// 3-cycle, or is an acyclic chain of 50 / 99 / 100 / 101 / 1000 hops ending in a real function; triggered
+	// from Lua code, through pcall, through Go library functions and inside a coroutine.  Expected: a Lua
+	// error or a normal result; never a Go panic, a fatal stack overflow or a hang (answer-at-once templates).
+	mmShapes := []string{"self", "cycle2", "cycle3", "chains"} // chains = 50, 99, 100, 101 and 1000 hops in one program
+	for _, ev := range []string{"__call", "__index", "__newindex", "__eq", "__lt", "__le", "__concat", "__len", "__unm", "__add", "__mod", "__pow", "__idiv",
+		"__band", "__shl", "__bnot", "__close", "__gc", "__tostring", "__name", "__pairs"} {
+		ev := ev
+		ts = append(ts, template{name: "mmgraph" + strings.ReplaceAll(ev, "__", "-"), group: "mmgraph", answer: true, nolimit: ev == "__gc",
+			quick: []int{0, 1, 2, 3}, thor: []int{0, 1, 2, 3},
+			gen: func(n int) string {
+				return mmgraphPrelude + "return run(" + strconv.Quote(ev) + ", " + strconv.Quote(mmShapes[n]) + ")"
+			},
+			expect: func(int) string { return "t" }})
+	}
+
+	// ---- a CPU / memory kill reached inside a __close handler that runs while a coroutine is ENDING
+	for _, kv := range [][2]string{{"cpu", "{cpu = 3000}"}, {"memory", "{memory = 60000}"}} {
+		kv := kv
+		for _, sc := range [][2]string{
+			{"normal-end", `local co = coroutine.create(function() local x <close> = H() return 1 end) return coroutine.resume(co)`},
+			{"error-end", `local co = coroutine.create(function() local x <close> = H() error("body fails") end) return coroutine.resume(co)`},
+			{"coroutine-close", `local co = coroutine.create(function() local x <close> = H() coroutine.yield(1) end) coroutine.resume(co) return coroutine.close(co)`},
+			{"wrap-normal-end", `local w = coroutine.wrap(function() local x <close> = H() return 1 end) return w()`},
+			{"wrap-error-end", `local w = coroutine.wrap(function() local x <close> = H() error("body fails") end) return pcall(w)`},
+			{"two-handlers", `local co = coroutine.create(function() local a <close> = setmetatable({}, {__close = function() end}) local x <close> = H() local b <close> = setmetatable({}, {__close = function() end}) return 1 end) return coroutine.resume(co)`},
+			{"nested-coroutine-ends-inside-handler", `local co = coroutine.create(function() local x <close> = setmetatable({}, {__close = function()
+    local inner = coroutine.create(function() local y <close> = H() return 2 end) return coroutine.resume(inner) end}) return 1 end) return coroutine.resume(co)`},
+			{"nested-close-inside-handler", `local inner = coroutine.create(function() local y <close> = H() coroutine.yield() end) coroutine.resume(inner)
+local co = coroutine.create(function() local x <close> = setmetatable({}, {__close = function() return coroutine.close(inner) end}) error("e") end) return coroutine.resume(co)`},
+			{"handler-error-then-kill", `local co = coroutine.create(function() local x <close> = H() local y <close> = setmetatable({}, {__close = function() error("first handler fails") end}) return 1 end) return coroutine.resume(co)`},
+			{"pcall-around-resume", `local co = coroutine.create(function() local x <close> = H() return 1 end) return pcall(coroutine.resume, co)`},
+		} {
+			sc := sc
+			ts = append(ts, template{name: "closekill-" + kv[0] + "-" + sc[0], group: "closekill", nolimit: true, quick: single, thor: single,
+				gen: func(int) string {
+					return `local function H() return setmetatable({}, {__close = function() local t = {} while true do t[#t + 1] = {#t} end end}) end
+local ctx = runtime.callcontext({kill = ` + kv[1] + `}, function() ` + sc[1] + ` end)
+local after = {} for i = 1, 100 do after[i] = {i} end   -- the host goes on after the kill
+return tostring(ctx) == "killed" and #after == 100`
+				}, expect: func(int) string { return "t" }})
+		}
+	}
 	// ---- memory accounting across contexts (shared with C06) -------------------------------------
 	ts = append(ts, template{name: "memctx-coroutine-finishes-inside", group: "memctx", nolimit: true, quick: single, thor: single,
 		gen: func(n int) string {
@@ -635,6 +747,12 @@ func templateChild(name string, n int) {
 	if t == nil {
 		fmt.Fprintln(os.Stderr, "unknown template", name)
 		os.Exit(2)
+	}
+	if t.group == "mmgraph" {
+		// these small programs never need a deep Go stack: a runaway recursion is reported (as the same
+		// fatal "goroutine stack exceeds ...-byte limit") after 128 MiB instead of the default 1 GB,
+		// which takes seconds instead of half a minute
+		debug.SetMaxStack(128 << 20)
 	}
 	src := t.gen(n)
 	cls, detail := runTemplateSource(t, n, []byte(src))
@@ -751,7 +869,7 @@ func runTemplateSourceFull(t *template, n int, src []byte, fullLib bool) (cls, d
 			return clsWrong, d
 		}
 	}
-	if cls == clsErr && t.expect != nil && t.group != "runtime" && t.group != "memctx" {
+	if cls == clsErr && t.expect != nil && t.group != "runtime" && t.group != "memctx" && t.group != "mmgraph" {
 		// a program that is within every limit must not fail at run time: wrong code was generated
 		d := "run-time error in valid program: " + detail
 		if maxFnLen > 32767 {
@@ -837,7 +955,7 @@ func templatesParent(tier string) {
 				// templates that are one small program (ladder {1}) must answer at once: for them a TIMEOUT
 				// is a deadlock / endless loop, reported as class HANG after one more, longer, attempt (the
 				// machine may just be busy).  For size-parameterised templates a TIMEOUT stays inconclusive.
-				mustAnswer := len(ladder) == 1 && ladder[0] == 1
+				mustAnswer := t.answer || len(ladder) == 1 && ladder[0] == 1
 				to := timeout
 				if mustAnswer {
 					to = 10 * time.Second
